@@ -36,6 +36,11 @@ type serverApp struct {
 }
 
 func (a *serverApp) standardValidator(source, key string) bool {
+	if source == "." || source == ".." {
+		// The source name becomes a directory name under the stage, final and
+		// log roots; these two would be the root itself or its parent
+		return false
+	}
 	if len(a.conf.Sources) > 0 {
 		if matched, err := regexp.MatchString(`^[a-z0-9\.\-/]+$`, source); err != nil || !matched {
 			return false
